@@ -128,6 +128,17 @@ function's `read` set (the class predicate is this one together with `closureRea
 def nonlocalInReader (D : CfgData) (g v : Nat) : Bool :=
   onChain D (fun h => match D.fnOf h with | some fi => fi.nonlocals.contains v | none => false) (D.fns.length + 1) g
 
+/-- the function `g` is the analysed function itself or lexically nested in it -/
+def nestedInAnalysed (D : CfgData) : Nat → Nat → Bool
+  | 0, _ => false
+  | fuel + 1, g => g == D.fnId || (match D.fnOf g with | some fi => nestedInAnalysed D fuel fi.parent | none => false)
+
+/-- finding class `outer_function_defined_after_callers_definition`: the reader is a local function OUTSIDE the analysed one
+(a sibling or an outer function it calls) that is not among the definitions reaching the analysed function's own entry —
+`reaching_fndefs` seeds a nested graph with the definitions that reach its `def` statement, not those that reach its calls -/
+def readerOutsideNotSeeded (D : CfgData) (g : Nat) : Bool :=
+  !(nestedInAnalysed D (D.fns.length + 1) g) && !((D.fnsIn D.entry).contains g)
+
 /-- finding class: the reading function is a lambda (assumed by the analysis to be used only where it is defined) -/
 def readerIsLambda (D : CfgData) (g : Nat) : Bool :=
   match D.fnOf g with | some fi => fi.isLambda | none => false
